@@ -120,6 +120,7 @@ type Worker struct {
 	knownLog  []knownUndo
 	curInstr  ssa.Instruction
 	lastModel Model
+	clock     int64
 	uf        map[string]string   // variable name -> parent (union-find over PC variables)
 	comp      map[string][]int    // root -> indices of PC conjuncts in the component
 	dirty     map[string]bool     // variables whose component the model no longer satisfies
@@ -185,6 +186,10 @@ func (w *Worker) store(ptr Ptr, v Value) {
 	}
 	if ptr.alts != nil {
 		for _, a := range ptr.alts {
+			if a.p.isNil() {
+				w.oblige(w.B.Not(a.g), "panic", "nil pointer dereference (store)", w.curPos())
+				continue
+			}
 			old := w.load(a.p)
 			w.store(a.p, w.ite(a.g, v, old))
 		}
@@ -240,6 +245,10 @@ func (w *Worker) load(ptr Ptr) (res Value) {
 		var r Value
 		for i := len(ptr.alts) - 1; i >= 0; i-- {
 			a := ptr.alts[i]
+			if a.p.isNil() {
+				w.oblige(w.B.Not(a.g), "panic", "nil pointer dereference (load)", w.curPos())
+				continue
+			}
 			v := w.load(a.p)
 			if r == nil {
 				r = v
@@ -377,7 +386,7 @@ func (w *Worker) ite(c *Term, a, b Value) Value {
 				return a
 			}
 			av, bv = w.toAlts(av), w.toAlts(bv)
-			if !av.isNil() && !bv.isNil() {
+			{
 				var alts []altPtr
 				add := func(g *Term, p Ptr) {
 					if p.alts != nil {
